@@ -2371,7 +2371,8 @@ impl SctpInner {
         }
 
         let old_cumulative_tsn = self.cumulative_tsn_ack.load(Ordering::SeqCst);
-        if new_cumulative_tsn > old_cumulative_tsn {
+        // TSNs are serial numbers (RFC 1982): the comparison must survive the 2^32 wrap.
+        if tsn_gt(new_cumulative_tsn, old_cumulative_tsn) {
             debug!(
                 "FORWARD TSN: moving cumulative ack from {} to {}",
                 old_cumulative_tsn, new_cumulative_tsn
@@ -2381,7 +2382,7 @@ impl SctpInner {
 
             {
                 let mut received_queue = self.received_queue.lock();
-                received_queue.retain(|&tsn, _| tsn > new_cumulative_tsn);
+                received_queue.retain(|&tsn, _| tsn_gt(tsn, new_cumulative_tsn));
             }
 
             // Advance SSNs for ordered streams
@@ -3659,22 +3660,14 @@ impl SctpInner {
 
         let mut new_advanced = advanced;
         let mut has_abandoned = false;
-        let tsns: Vec<u32> = sent_queue.keys().cloned().collect();
-        for tsn in tsns {
-            if !tsn_gt(tsn, new_advanced) && tsn != new_advanced.wrapping_add(1) {
-                continue;
-            }
-            if tsn != new_advanced.wrapping_add(1) {
+        // Walk in TSN order from the chunk right after the current point. (The map is keyed
+        // by the raw u32, whose iteration order is not TSN order around the 2^32 wrap.)
+        while let Some(record) = sent_queue.get(&new_advanced.wrapping_add(1)) {
+            if !record.abandoned {
                 break;
             }
-            if let Some(record) = sent_queue.get(&tsn) {
-                if record.abandoned {
-                    new_advanced = tsn;
-                    has_abandoned = true;
-                } else {
-                    break;
-                }
-            }
+            new_advanced = new_advanced.wrapping_add(1);
+            has_abandoned = true;
         }
 
         if has_abandoned && tsn_gt(new_advanced, advanced) {
